@@ -1,5 +1,6 @@
 import SmtpV.Model.Wire
 import SmtpV.Spec.Monitors
+import SmtpV.Proofs.DataResume
 /-!
 # C19 — hostile input is bounded (line-length limiter)
 
@@ -113,5 +114,32 @@ theorem C19_long_line_refused (limit : Nat) (line rest : Bytes) (cur : Nat) (hcu
 
 example : (feed 8 0 ["NOO".b, "P\nRS".b, "ET\n".b]).2 = false := by decide +kernel
 example : (feed 8 0 ["NOOPNOOP".b, "X\n".b]).2 = true := by decide +kernel
+
+/-! ### the error threshold and the tripped limiter, on the server model -/
+open SmtpV.Server in
+/-- **C19_error_threshold.**  A protocol error in a connection that has already counted three of them closes the connection
+    (after the error's own reply and the closing notice), whatever the error; and an error counted earlier only adds to the
+    count. -/
+theorem C19_error_threshold (s : S) (code : Nat) (enh : Spec.Enh) (text : String) :
+    (s.c.errCount ≥ 3 → (protocolError s code enh text).c.closed = true) ∧
+    (s.c.errCount < 3 → s.c.closed = false → (protocolError s code enh text).c.errCount = s.c.errCount + 1) := by
+  unfold protocolError
+  simp only []
+  have hc : (reply s code enh text).c = s.c := reply_c _ _ _ _
+  generalize reply s code enh text = s1 at hc ⊢
+  constructor
+  · intro h
+    have : s1.c.errCount + 1 > errThreshold := by rw [hc]; simp only [errThreshold]; omega
+    simp only [this, if_true]
+    exact closeConn_closed _
+  · intro h _
+    have hn : ¬ (s.c.errCount + 1 > errThreshold) := by simp only [errThreshold]; omega
+    simp only [hc, hn, if_false]
+
+open SmtpV.Server in
+/-- **C19_tripped_ends_commands.**  Once the line limiter has latched, the command loop's next read reports an error: no
+    further command is executed on that connection (the loop answers 500 and returns). -/
+theorem C19_tripped_ends_commands (w : W) (h : w.tripped = true) : ∃ e, (readLine w).2 = .error e :=
+  readLine_tripped w h
 
 end SmtpV.Props.C19
